@@ -16,6 +16,10 @@ CONSTANTS
   Defect = "none"
   AllowBadConfig = TRUE
   Emit = FALSE
+  Faults <- NoFaults
+  QS <- NoQ
+  Ops <- AllOps
+  Big = FALSE
 VIEW MCView
 INVARIANTS NoFalseNegative
 CHECK_DEADLOCK FALSE
